@@ -455,7 +455,7 @@ func harnesses(r *fw.Run) []fw.HarnessSpec {
 		})
 	})
 
-	add("confirmation-histories", r.Pick(2, 4), func(c *enum.Ctx) {
+	add("confirmation-histories", r.Pick(2, 5), func(c *enum.Ctx) {
 		ver := []wallet.Version{wallet.V4R2, wallet.V5R1, wallet.V3R2}[c.ChooseFree(3)]
 		waiting := []time.Duration{time.Second, 0}[c.ChooseFree(2)]
 		sendFails := c.Choose(2) == 1
